@@ -93,6 +93,33 @@ pub(crate) fn h_layout_inner() {
     pipeline_checks(&t);
 }
 
+/// layout inside uninterpreted IF_DATA with nested blocks, and around an A2ML block (blank lines before /end A2ML)
+pub(crate) fn h_layout_ifdata() {
+    let mut t = String::from("ASAP2_VERSION 1 71\n/begin PROJECT p \"\"\n/begin MODULE m \"\"\n/begin A2ML\nblock \"IF_DATA\" struct { int; };");
+    match vrt_choice(3) { 0 => t.push('\n'), 1 => t.push_str("\n\n"), _ => t.push_str("\n\n\n") }
+    t.push_str("/end A2ML\n/begin IF_DATA VENDOR");
+    sep_inner(&mut t);
+    t.push_str("/begin OUTER 1");
+    sep_inner(&mut t);
+    t.push_str("/begin INNER \"x\"");
+    sep_inner(&mut t);
+    t.push_str("/end INNER");
+    sep_inner(&mut t);
+    t.push_str("/end OUTER\n/end IF_DATA\n/end MODULE\n/end PROJECT");
+    pipeline_checks(&t);
+}
+
+pub(crate) fn h_layout_ifdata_small() {
+    let mut t = String::from("ASAP2_VERSION 1 71\n/begin PROJECT p \"\"\n/begin MODULE m \"\"\n/begin A2ML\nblock \"IF_DATA\" struct { int; };");
+    match vrt_choice(3) { 0 => t.push('\n'), 1 => t.push_str("\n\n"), _ => t.push_str("\n\n\n") }
+    t.push_str("/end A2ML\n/begin IF_DATA VENDOR\n/begin OUTER 1\n/begin INNER \"x\"");
+    sep_inner(&mut t);
+    t.push_str("/end INNER");
+    sep_inner(&mut t);
+    t.push_str("/end OUTER\n/end IF_DATA\n/end MODULE\n/end PROJECT");
+    pipeline_checks(&t);
+}
+
 /// symbolic separators (incl. both comment kinds, multi-line comments, blank lines, CRLF) between block-level elements
 pub(crate) fn h_layout_blocks() {
     let mut t = String::from("ASAP2_VERSION 1 71\n/begin PROJECT p \"\"\n/begin MODULE m \"\"");
@@ -1061,10 +1088,20 @@ pub(crate) fn h_ifdata_definitions() {
     }
 }
 
+fn number_value(t: &str) -> Option<f64> {
+    if t.len() > 2 && (t.starts_with("0x") || t.starts_with("0X")) {
+        u64::from_str_radix(&t[2..], 16).ok().map(|v| v as f64)
+    } else {
+        t.parse::<f64>().ok()
+    }
+}
+
 /// uninterpreted IF_DATA (no A2ML at all): every token passes through with its value intact
 pub(crate) fn h_ifdata_uninterpreted() {
-    let payloads: [&str; 8] = ["1", "-7", "0x1F", "4294967297", "0x1FFFFFFFF", "1.5", "\"s\" ident", "/begin X 1 /begin Y \"a\" /end Y /end X"];
-    let k = vrt_choice(8) as usize;
+    let payloads: [&str; 11] = ["1", "-7", "0x1F", "4294967297", "0x1FFFFFFFF", "1.5", "\"s\" ident", "/begin X 1 /begin Y \"a\" /end Y /end X",
+        "/begin DAQ /begin EVENT 1 /end EVENT /begin EVENT 2 /end EVENT /begin EVENT 3 /end EVENT /end DAQ",
+        "KEY 1 KEY 2 /begin B 1 /end B KEY 3", "0.1234567891 -1e-7 1E3"];
+    let k = vrt_choice(11) as usize;
     let mut t = String::from("ASAP2_VERSION 1 71\n/begin PROJECT p \"\"\n/begin MODULE m \"\"\n/begin IF_DATA VENDOR ");
     t.push_str(payloads[k]);
     t.push_str("\n/end IF_DATA\n/end MODULE\n/end PROJECT");
@@ -1076,7 +1113,10 @@ pub(crate) fn h_ifdata_uninterpreted() {
     let n = if a.len() < b.len() { a.len() } else { b.len() };
     let mut changed = false;
     for i in 0..n {
-        if !(a[i].0 == b[i].0 && a[i].1 == b[i].1) { changed = true; }
+        if a[i].0 == 5 && b[i].0 == 5 {
+            // numbers may change their notation, not their value
+            if number_value(&a[i].1) != number_value(&b[i].1) { changed = true; }
+        } else if !(a[i].0 == b[i].0 && a[i].1 == b[i].1) { changed = true; }
     }
     // a value the library cannot keep must be diagnosed, never silently changed
     vrt_check(!changed || !log.is_empty(), "C02 uninterpreted IF_DATA passes through with its values intact (or the loss is diagnosed)");
